@@ -19,6 +19,18 @@ The facts come from harness/cmd/extract-c05 (go/ast over waddrmgr/*.go):
   unlock_loads_queued_accounts   Manager.Unlock calls loadAccountInfo for the account of every
                                  deriveOnUnlock entry before it decrypts the cached account keys
 
+  lock_zeroes_account_keys       lock() calls acctKeyPriv.Zero() before acctKeyPriv = nil
+  address_lock_zeroes_key        managedAddress.lock() calls zero.Bytes(privKeyCT) before privKeyCT = nil
+  address_lock_zeroes_script     baseScriptAddress.lock() calls zero.Bytes(scriptClearText) before = nil
+  lock_zeroes_cached_keys        the purge of privKeyCache zeroes every key it deletes
+  lock_zeroes_manager_keys       lock() zeroes cryptoKeyScript / cryptoKeyPriv / masterKeyPriv / hashedPrivPassphrase
+  markused_wipes_evicted, invalidate_wipes_evicted, next_wipes_replaced_last,
+  unlock_leaves_no_cleartext_in_dropped, lru_eviction_zeroes
+                                 an object that leaves the manager's state while it is unlocked is wiped
+                                 first (on the present tree: false - the known findings
+                                 evicted_cleartext_survives_lock; the theorems take them as an explicit premise)
+  priv_key_cache_size            defaultPrivKeyCacheSize (capacity of the LRU of derived keys)
+
 The model coq/Addr/Lock.v is parameterised by these booleans; the theorems of
 coq/Properties/C05.v take `= true` premises discharged by eq_refl, so that file
 stops compiling when the source loses one of the behaviours.  The extractor
@@ -30,7 +42,11 @@ import vlib
 
 NAMES = ["cache_checked_for_lock", "lock_purges_key_cache", "lock_wipes_witness_scripts",
          "lock_wipes_last_addrs", "unlock_skips_keyless_accounts", "keyless_addresses_not_queued",
-         "change_rejects_empty_private", "privkey_checks_lock_first", "unlock_loads_queued_accounts"]
+         "change_rejects_empty_private", "privkey_checks_lock_first", "unlock_loads_queued_accounts",
+         "lock_zeroes_account_keys", "address_lock_zeroes_key", "address_lock_zeroes_script",
+         "lock_zeroes_cached_keys", "lock_zeroes_manager_keys",
+         "markused_wipes_evicted", "invalidate_wipes_evicted", "next_wipes_replaced_last",
+         "unlock_leaves_no_cleartext_in_dropped", "lru_eviction_zeroes"]
 
 
 class ExtractError(RuntimeError):
@@ -83,6 +99,17 @@ def _run_scenarios(repo, scenarios):
     return cases
 
 
+def _cache_size(repo):
+    """the capacity constant cannot be observed by a short run: read it from the source (both paths use it)"""
+    import re
+    for fn in sorted(os.listdir(os.path.join(repo, "waddrmgr"))):
+        if fn.endswith(".go") and not fn.endswith("_test.go"):
+            m = re.search(r"\bdefaultPrivKeyCacheSize\s*=\s*([0-9_]+)", open(os.path.join(repo, "waddrmgr", fn)).read())
+            if m:
+                return int(m.group(1).replace("_", ""))
+    raise ExtractError("probe: constant defaultPrivKeyCacheSize not found in waddrmgr/*.go")
+
+
 def probe_facts(repo):
     """Facts determined by RUNNING the code built from `repo` (fallback when the source shape is not recognised).
 
@@ -100,6 +127,16 @@ def probe_facts(repo):
           which must give watchonly.
       lock_purges_key_cache    [unlock P; props; dcache i; lock]: the hook reports privKeyCache:<scope> live iff the
           cache still has entries; dcache i succeeded, so the cache had one.  true iff not live after Lock.
+          (Whether the purged KEYS are zeroed is lock_zeroes_cached_keys below.)
+      lock_zeroes_* / address_lock_zeroes_*   [unlock P; props; next; privkey; import key; import p2sh and witness
+          scripts; dcache; lock]: every class of buffer is live before Lock (checked); the harness keeps a
+          reference to every backing array / key object (secrets.go) and looks at the BYTES after Lock: a fact is
+          true iff no buffer of its class still holds them - setting the field to nil or deleting the cache entry
+          is not enough.
+      *_wipes_evicted / next_wipes_replaced_last / unlock_leaves_no_cleartext_in_dropped / lru_eviction_zeroes
+          the witness histories of the C05_refuted_without_*_wipe theorems: the object leaves the manager's state
+          during the named operation while the manager is unlocked; then Lock; true iff the retained reference
+          shows no clear text.
       lock_wipes_witness_scripts  [unlock P; import a secret witness script; import a secret taproot script; lock]:
           the import leaves the clear text in the object; true iff both buffers are dead after Lock, false iff both
           are live, anything else is refused (the model has one fact for both kinds).
@@ -140,6 +177,19 @@ def probe_facts(repo):
     idx["empty"] = [add([U, {"k": "chpriv", "p": 1, "q": 0}]), add([{"k": "chpriv", "p": 1, "q": 0}])]
     idx["privkey"] = [add([U, {"k": "derive", "sc": s, "idx": 11}, {"k": "lock"}]) for s in (0, 2)]
     idx["preload"] = [add([{"k": "next", "sc": s}, {"k": "invalidate", "sc": s}, U]) for s in (0, 2)]
+    # zeroing, through the references the harness retains (harness/cmd/c05/secrets.go): every buffer class live, then Lock
+    idx["zero"] = [add([U, {"k": "props", "sc": s}, {"k": "next", "sc": s}, {"k": "privkey", "sc": s, "a": k(0, 0, 0)},
+                        {"k": "imppriv", "sc": s, "n": 1}, {"k": "impscript", "sc": s, "n": 2, "kind": "p2sh", "sec": True},
+                        {"k": "impscript", "sc": s, "n": 3, "kind": "witness", "sec": True},
+                        {"k": "dcache", "sc": s, "idx": 7}, {"k": "lock"}]) for s in (0, 2)]
+    # objects that leave the manager's state while it is unlocked, then Lock
+    idx["e_markused"] = [add([U, {"k": "next", "sc": s}, {"k": "next", "sc": s}, {"k": "markused", "sc": s, "a": k(0, 0, 0)},
+                              {"k": "lock"}]) for s in (0, 2)]
+    idx["e_invalidate"] = [add([U, {"k": "props", "sc": s}, {"k": "invalidate", "sc": s}, {"k": "lock"}]) for s in (0, 2)]
+    idx["e_next"] = [add([U, {"k": "props", "sc": s}, {"k": "next", "sc": s}, {"k": "lock"}]) for s in (0, 2)]
+    idx["e_unlock"] = [add([{"k": "next", "sc": s}, U, {"k": "lock"}]) for s in (0, 2)]
+    cap = _cache_size(repo)
+    idx["e_lru"] = [add([U, {"k": "props"}, {"k": "dcache", "idx": 7}, {"k": "dcachefill", "idx": 1000, "n": cap}, {"k": "lock"}])]
     cases = _run_scenarios(repo, sc)
 
     def calls(i, kind):
@@ -251,6 +301,48 @@ def probe_facts(repo):
         vals.append(r == "ok")
     f["unlock_loads_queued_accounts"] = agree("unlock_loads_queued_accounts", vals)
     why["unlock_loads_queued_accounts"] = "Unlock after InvalidateAccountCache with a queued address: %s" % ("succeeds" if vals[0] else "nil dereference")
+    # -- zeroing: what the retained references show after Lock
+    def finds(i):
+        return cases[i]["obs"].get("secret_findings") or []
+
+    def ran(i, kinds):
+        return all(c["r"] == "ok" for kk in kinds for c in calls(i, kk)) and last_snap(i)["l"]
+    zero_classes = {
+        "lock_zeroes_account_keys": lambda c: c == "accountInfo.acctKeyPriv",
+        "address_lock_zeroes_key": lambda c: c == "managedAddress.privKeyCT",
+        "address_lock_zeroes_script": lambda c: c.endswith(".scriptClearText"),
+        "lock_zeroes_cached_keys": lambda c: c == "cachedKey.key",
+        "lock_zeroes_manager_keys": lambda c: c.startswith("Manager."),
+    }
+    for i in idx["zero"]:
+        need(ran(i, ("unlock", "props", "next", "privkey", "imppriv", "impscript", "dcache", "lock")),
+             "zeroing scenario did not run as intended: %s" % [(e["o"]["k"], e["r"]) for e in cases[i]["obs"]["trace"] if "o" in e])
+        # before Lock every class was live (otherwise nothing is shown)
+        pre = [e["s"] for e in cases[i]["obs"]["trace"] if e.get("s") and not e["s"]["l"]][-1]
+        live = {b["t"] for b in pre["b"] if b["live"]}
+        need({"master", "cpriv", "hashed", "acct", "addr", "script", "cache"} <= live,
+             "zeroing scenario: not every buffer class was live before Lock (%s)" % sorted(live))
+    for name, pred in zero_classes.items():
+        # (only what lock() itself dropped or still tracks: objects that left earlier are the e_* facts)
+        bad = [x for i in idx["zero"] for x in finds(i) if pred(x["class"]) and (x["status"] == "tracked" or x.get("left_at") == "lock")]
+        f[name] = not bad
+        why[name] = "buffers of that class after Lock, through the retained references: %s" % (
+            "all zero" if not bad else "still hold their bytes (%s)" % sorted({x["class"] + "/" + x["status"] for x in bad}))
+    # -- eviction sites
+    for name, key, op, kinds in (("markused_wipes_evicted", "e_markused", "markused", ("unlock", "next", "markused", "lock")),
+                                 ("invalidate_wipes_evicted", "e_invalidate", "invalidate", ("unlock", "props", "invalidate", "lock")),
+                                 ("next_wipes_replaced_last", "e_next", "next", ("unlock", "props", "next", "lock")),
+                                 ("unlock_leaves_no_cleartext_in_dropped", "e_unlock", "unlock", ("next", "unlock", "lock")),
+                                 ("lru_eviction_zeroes", "e_lru", "dcachefill", ("unlock", "props", "dcache", "dcachefill", "lock"))):
+        vals = []
+        for i in idx[key]:
+            need(ran(i, kinds), "%s scenario did not run as intended: %s" % (key, [(e["o"]["k"], e["r"]) for e in cases[i]["obs"]["trace"] if "o" in e]))
+            vals.append(not [x for x in finds(i) if x["status"] == "evicted" and x.get("left_at") == op])
+        f[name] = agree(name, vals)
+        why[name] = "an object that left the manager's state during `%s`, after Lock: %s" % (
+            op, "holds no clear text" if vals[0] else "still holds its clear text")
+    f["priv_key_cache_size"] = cap
+    why["priv_key_cache_size"] = "defaultPrivKeyCacheSize (read from waddrmgr/scoped_manager.go)"
     f["why"] = why
     f["nprobes"] = len(sc)
     return f
@@ -281,12 +373,15 @@ def render(res, source="source"):
     defs = []
     for n in NAMES:
         defs.append("(* %s *)\nDefinition %s : bool := %s.\n" % (_clean(res["why"][n]), n, "true" if res[n] else "false"))
+    defs.append("(* %s *)\nDefinition priv_key_cache_size : N := %d%%N.\n" % (
+        _clean(res["why"].get("priv_key_cache_size", "defaultPrivKeyCacheSize")), int(res["priv_key_cache_size"])))
     return """(* GENERATED by lib/extract_c05.py (harness/cmd/extract-c05, go/ast) from the
    repository's waddrmgr/*.go.  Do not edit; bin/extract rewrites it.
 
    Facts about the lock discipline of waddrmgr that the model Addr/Lock.v is
    parameterised by (see the record [facts] there). *)
 (* facts source: %s *)
+From Coq Require Import NArith.
 
 %s""" % (_clean(source), "\n".join(defs))
 
